@@ -52,8 +52,15 @@ func dfloat(f float64) string {
 }
 func dlabel(l logql.Label) string { return dstr(string(l)) }
 func dop(o logql.BinOp) string    { return strconv.Itoa(int(o)) }
+// the compiled regular expression a node carries (its source text): the anchored ^(?:v)$ for a label matcher, v itself for a line filter
+func dre(re *regexp.Regexp) string {
+	if re == nil {
+		return dstr("")
+	}
+	return dstr(re.String())
+}
 func dmatcher(m logql.LabelMatcher) string {
-	return dnode("m", dstr(string(m.Label)), dop(m.Op), dstr(m.Value))
+	return dnode("m", dstr(string(m.Label)), dop(m.Op), dstr(m.Value), dre(m.Re))
 }
 func dextr(e logql.LabelExtractionExpr) string { return dnode("p", dstr(string(e.Label)), dstr(e.Expr)) }
 
@@ -87,7 +94,7 @@ func dpred(p logql.LabelPredicate) string {
 func dstage(s logql.PipelineStage) string {
 	switch s := s.(type) {
 	case *logql.LineFilter:
-		return dnode("line", dop(s.Op), dstr(s.Value), dbool(s.IP))
+		return dnode("line", dop(s.Op), dstr(s.Value), dbool(s.IP), dre(s.Re))
 	case *logql.JSONExpressionParser:
 		return dnode("json", dlist(dlabel, s.Labels), dlist(dextr, s.Exprs))
 	case *logql.LogfmtExpressionParser:
